@@ -95,6 +95,95 @@ pub fn test_file(file: &KFile, texts: &[String], all_prefixes: bool) -> TestResu
         .class(contributions > 0, "text-matches-model"))
 }
 
+/// The same statement for the shipped converter program (`convert_kytea_model --model-in F
+/// --model-out G`): G (zstd) holds the reference conversion of F; a truncated F makes the program
+/// exit with an error status, not a panic.
+pub fn test_tool(file: &KFile) -> TestResult {
+    let bytes = file.to_bytes();
+    let (want, st) = kytea::reference_model(file)?;
+    let dir = util::Scratch::new("c17");
+    let (fin, fout) = (dir.path("kytea.bin"), dir.path("model.zst"));
+    let run = |data: &[u8]| -> Result<util::RunOut, String> {
+        std::fs::write(&fin, data).map_err(|e| e.to_string())?;
+        let _ = std::fs::remove_file(&fout);
+        util::run_tool(
+            "convert_kytea_model",
+            &["--model-in".into(), fin.to_string_lossy().to_string(), "--model-out".into(), fout.to_string_lossy().to_string()],
+            b"",
+        )
+    };
+    let r = run(&bytes)?;
+    ensure!(!r.stderr.contains("panicked"), "convert_kytea_model crashed on a well-formed file: {}", r.stderr.lines().find(|l| l.contains("panicked")).unwrap_or(""));
+    ensure!(r.code == Some(0), "convert_kytea_model exits with {:?} on a well-formed file: {}", r.code, r.stderr.lines().last().unwrap_or(""));
+    let z = std::fs::read(&fout).map_err(|e| format!("convert_kytea_model wrote no model file: {e}"))?;
+    let raw = util::zstd_decode(&z)?;
+    let (model, rest) = Model::read_slice(&raw).map_err(|e| format!("the written model cannot be read: {e}"))?;
+    ensure!(rest.is_empty(), "the written model file has {} trailing bytes", rest.len());
+    let mut got = ModelSpec::from_model(&model)?;
+    kytea::canonical(&mut got);
+    ensure_eq!(got.char_window, want.char_window, "character window (tool)");
+    ensure_eq!(got.type_window, want.type_window, "type window (tool)");
+    ensure_eq!(got.bias, want.bias, "bias (tool)");
+    ensure_eq!(&got.char_ngrams, &want.char_ngrams, "character n-grams of the model written by the tool");
+    ensure_eq!(&got.type_ngrams, &want.type_ngrams, "character type n-grams of the model written by the tool");
+    ensure_eq!(&got.dict, &want.dict, "dictionary of the model written by the tool");
+    ensure!(got.tag_models.is_empty(), "model written by the tool has tag models");
+    // truncated inputs (outside the unread tail): error status, no panic
+    let body = bytes.len() - file.trailer.len();
+    let mut cuts = vec![0usize, 1, body / 3, body / 2, body.saturating_sub(1)];
+    cuts.dedup();
+    for k in cuts {
+        if k >= body {
+            continue;
+        }
+        let r = run(&bytes[..k])?;
+        ensure!(!r.stderr.contains("panicked"), "convert_kytea_model crashed on the {k}-byte prefix: {}", r.stderr.lines().find(|l| l.contains("panicked")).unwrap_or(""));
+        ensure!(r.code.is_some() && r.code != Some(0), "convert_kytea_model exits with {:?} on the {k}-byte prefix of a {}-byte file", r.code, bytes.len());
+    }
+    Ok(Info::new(st.word_in_two_dicts && st.type_ngrams > 0)
+        .class(st.word_in_two_dicts, "word-in->=2-member-dictionaries")
+        .class(file.n_tags > 0, "tag-slots"))
+}
+
+/// KyTea files whose dictionary holds words of `len` characters (and len + 1, len + 3) next to
+/// short ones, in one or two member dictionaries, with distinct weights per length bucket.
+fn long_word_case(len: usize, k: usize) -> KyteaCase {
+    // raw character selectors are resolved with pick(i, 6) over the first six text characters
+    let sel = |c: usize| (((c % 6) << 16) / 6 + 1) as u16;
+    let word = |n: usize, salt: usize| -> Vec<u16> { (0..n).map(|i| sel((i * i + i / 5 + salt) % 5)).collect() };
+    let raw = kytea::RawKytea {
+        n_tags: 0,
+        char_w: 2,
+        type_w: 1,
+        dict_n: [4u8, 1, 3][k % 3],
+        n_dicts: 2,
+        char_ngrams: vec![(vec![sel(0)], vec![5, -7, 11, 13, -17, 19, 23, 29, 31, 37, 41, 43], 0)],
+        type_ngrams: vec![(vec![0], vec![3, -3, 2, 1, 1, 1, 1, 1, 1, 1, 1, 1], 0)],
+        words: vec![
+            (vec![sel(5)], 1),
+            (word(len, 0), 3),
+            (word(len + 1, 1), 2),
+            (word(len + 3, 2), 1),
+            (word(3, 3), 3),
+        ],
+        dict_vec: (0..100).map(|i| (i * 37 % 201) as i16 - 100).collect(),
+        biases: vec![-40],
+        shuffle: (0..64).map(|i| (i * 7919 + k * 13) as u16).collect(),
+        global_models: vec![0, 0, 0],
+        subword: false,
+        word_tag_models: false,
+        texts: vec![],
+    };
+    let mut case = kytea::resolve_kytea(&raw);
+    // texts: every long word between two other characters
+    let chars: Vec<char> = case.file.char_map.chars().collect();
+    for e in &case.file.dict.entries {
+        let w: String = e.word.iter().map(|&i| chars[i as usize - 1]).collect();
+        case.texts.push(format!("。{w}。"));
+    }
+    case
+}
+
 pub fn run(rep: &mut Report) {
     if let Err(e) = kytea::self_test() {
         eprintln!("harness self-test failed (cannot speak the KyTea format): {e}");
@@ -115,6 +204,18 @@ reference conversion, predictions equal RefScore, every proper prefix is rejecte
         .into_iter(),
         |c: &KyteaCase| test_file(&c.file, &c.texts, true).map(|mut i| { i.nontrivial = true; i }),
     );
+    rep.run_enum(
+        "long-words",
+        "KyTea files whose dictionary holds words of 254..4,099 characters (lengths around 256, 512 \
+and 4,096) in one and two member dictionaries, buckets 1, 3 and 4: same oracle as generated-files \
+(prefixes strided)",
+        false,
+        [254usize, 255, 256, 257, 258, 259, 260, 300, 508, 511, 512, 513, 1024, 4096]
+            .into_iter()
+            .enumerate()
+            .map(|(k, l)| long_word_case(l, k)),
+        |c: &KyteaCase| test_file(&c.file, &c.texts, false).map(|mut i| { i.nontrivial = true; i }),
+    );
     let n = rep.n(1500, 100000);
     rep.run_prop(
         "generated-files",
@@ -130,6 +231,16 @@ Err without panic. Non-trivial = a word in >= 2 member dictionaries and >= 1 typ
         n,
         kytea::kytea_case,
         |c: &KyteaCase| test_file(&c.file, &c.texts, c.file.to_bytes().len() <= 3000),
+    );
+    let n = rep.n(400, 10000);
+    rep.run_prop(
+        "convert-tool",
+        "the shipped convert_kytea_model program on generated KyTea files (and resources/kytea- \
+model.bin from the corpus): exit 0 and a zstd model file holding exactly the reference conversion; \
+five truncation points per file give an error exit without a panic",
+        n,
+        kytea::kytea_case,
+        |c: &KyteaCase| test_tool(&c.file),
     );
     rep.extra("prefixes_executed", serde_json::json!(PREFIXES.load(Ordering::Relaxed)));
     rep.extra("prefixes_cut_inside_the_unread_tail_accepted_with_identical_model", serde_json::json!(ACCEPTED_TAIL.load(Ordering::Relaxed)));
